@@ -12,6 +12,7 @@ import (
 	"errors"
 	"flag"
 	"fmt"
+	"net"
 	"os"
 	"reflect"
 	"strings"
@@ -20,6 +21,7 @@ import (
 	"github.com/redis/rueidis"
 	"github.com/redis/rueidis/mock"
 	"github.com/redis/rueidis/rueidishook"
+	"verifharness/fakeredis"
 	"verifharness/vh"
 )
 
@@ -180,7 +182,12 @@ func (s *stubDed) SetOnInvalidations(fn func([]rueidis.RedisMessage)) <-chan err
 func (s *stubDed) Close() { s.w.under = append(s.w.under, "Close@"+s.path) }
 
 // ---------------------------------------------------------------------------------------------- the hook
-type hook struct{ w *world }
+type hook struct {
+	w     *world
+	layer int // 1 = innermost hook (handed the underlying client), k > 1: handed the wrapper of hook k-1
+}
+
+func (h *hook) log(entry, p string) { h.w.hooks = append(h.w.hooks, fmt.Sprintf("L%d:%s@%s", h.layer, entry, p)) }
 
 // which underlying client was the hook handed?  B() is a pass-through of every wrapper type, the stubs note who was asked.
 func (h *hook) id(c rueidis.Client) string {
@@ -198,7 +205,7 @@ func mark(r rueidis.RedisResult) rueidis.RedisResult {
 }
 func (h *hook) Do(c rueidis.Client, ctx context.Context, cmd rueidis.Completed) rueidis.RedisResult {
 	p := h.id(c)
-	h.w.hooks = append(h.w.hooks, "Do@"+p)
+	h.log("Do", p)
 	if h.w.fwd {
 		return mark(c.Do(ctx, cmd))
 	}
@@ -220,7 +227,7 @@ func owns(entry, p string, n int) []rueidis.RedisResult {
 }
 func (h *hook) DoMulti(c rueidis.Client, ctx context.Context, multi ...rueidis.Completed) []rueidis.RedisResult {
 	p := h.id(c)
-	h.w.hooks = append(h.w.hooks, "DoMulti@"+p)
+	h.log("DoMulti", p)
 	if h.w.fwd {
 		return marks(c.DoMulti(ctx, multi...))
 	}
@@ -228,7 +235,7 @@ func (h *hook) DoMulti(c rueidis.Client, ctx context.Context, multi ...rueidis.C
 }
 func (h *hook) DoCache(c rueidis.Client, ctx context.Context, cmd rueidis.Cacheable, ttl time.Duration) rueidis.RedisResult {
 	p := h.id(c)
-	h.w.hooks = append(h.w.hooks, "DoCache@"+p)
+	h.log("DoCache", p)
 	if h.w.fwd {
 		return mark(c.DoCache(ctx, cmd, ttl))
 	}
@@ -236,7 +243,7 @@ func (h *hook) DoCache(c rueidis.Client, ctx context.Context, cmd rueidis.Cachea
 }
 func (h *hook) DoMultiCache(c rueidis.Client, ctx context.Context, multi ...rueidis.CacheableTTL) []rueidis.RedisResult {
 	p := h.id(c)
-	h.w.hooks = append(h.w.hooks, "DoMultiCache@"+p)
+	h.log("DoMultiCache", p)
 	if h.w.fwd {
 		return marks(c.DoMultiCache(ctx, multi...))
 	}
@@ -244,7 +251,7 @@ func (h *hook) DoMultiCache(c rueidis.Client, ctx context.Context, multi ...ruei
 }
 func (h *hook) Receive(c rueidis.Client, ctx context.Context, sub rueidis.Completed, fn func(rueidis.PubSubMessage)) error {
 	p := h.id(c)
-	h.w.hooks = append(h.w.hooks, "Receive@"+p)
+	h.log("Receive", p)
 	if h.w.fwd {
 		return fmt.Errorf("H(%w)", c.Receive(ctx, sub, fn))
 	}
@@ -252,7 +259,7 @@ func (h *hook) Receive(c rueidis.Client, ctx context.Context, sub rueidis.Comple
 }
 func (h *hook) DoStream(c rueidis.Client, ctx context.Context, cmd rueidis.Completed) rueidis.RedisResultStream {
 	p := h.id(c)
-	h.w.hooks = append(h.w.hooks, "DoStream@"+p)
+	h.log("DoStream", p)
 	if h.w.fwd {
 		s := c.DoStream(ctx, cmd)
 		return mock.RedisResultStreamError(fmt.Errorf("H(%w)", s.Error()))
@@ -261,7 +268,7 @@ func (h *hook) DoStream(c rueidis.Client, ctx context.Context, cmd rueidis.Compl
 }
 func (h *hook) DoMultiStream(c rueidis.Client, ctx context.Context, multi ...rueidis.Completed) rueidis.MultiRedisResultStream {
 	p := h.id(c)
-	h.w.hooks = append(h.w.hooks, "DoMultiStream@"+p)
+	h.log("DoMultiStream", p)
 	if h.w.fwd {
 		s := c.DoMultiStream(ctx, multi...)
 		return mock.MultiRedisResultStreamError(fmt.Errorf("H(%w)", s.Error()))
@@ -272,6 +279,7 @@ func (h *hook) DoMultiStream(c rueidis.Client, ctx context.Context, multi ...rue
 // ---------------------------------------------------------------------------------------------- cases
 type op struct {
 	Op    string  `json:"op"`
+	Cx    string  `json:"cx"`
 	H     [][]any `json:"h"`
 	E     string  `json:"e"`
 	Hook  [][]any `json:"hook"`
@@ -280,7 +288,8 @@ type op struct {
 	Made  [][][]any `json:"made"`
 }
 type tcase struct {
-	Fwd bool `json:"fwd"`
+	Fwd    bool `json:"fwd"`
+	Layers int  `json:"layers"`
 	Ops []op `json:"ops"`
 }
 
@@ -339,6 +348,12 @@ type runner struct {
 func (r *runner) fail(o op, diff, what string) {
 	r.bad = true
 	sig := fmt.Sprintf("hook kind=%s op=%s entry=%s fwd=%v diff=%s", kindPath(o.H), o.Op, o.E, r.c.Fwd, diff)
+	if r.c.Layers > 1 {
+		sig += fmt.Sprintf(" stacked-hooks=%d", r.c.Layers)
+	}
+	if o.Cx != "" && o.Cx != "live" {
+		sig += " ctx=" + o.Cx
+	}
 	r.rep.Violate(sig, what, r.c)
 }
 
@@ -355,6 +370,16 @@ func (r *runner) step(o op) (stop bool) {
 		}
 	}()
 	ctx := context.Background()
+	switch o.Cx { // the state of the caller's context at the call
+	case "cancelled":
+		c2, cancel := context.WithCancel(ctx)
+		cancel()
+		ctx = c2
+	case "expired":
+		c2, cancel := context.WithDeadline(ctx, time.Now().Add(-time.Second))
+		defer cancel()
+		ctx = c2
+	}
 	hd := r.handles[path]
 	if hd == nil && o.Op != "End" {
 		r.rep.Inconcl("driver: no handle for %s", path)
@@ -366,8 +391,8 @@ func (r *runner) step(o op) (stop bool) {
 		stubTag := func() string { return fmt.Sprintf("S:%s:%s:#%d", o.E, path, seqBefore+1) }
 		expect := func(suffix string) string {
 			switch o.Ret {
-			case "marked":
-				return "H(" + stubTag() + suffix + ")"
+			case "marked": // every hook of the stack forwarded and marked
+				return strings.Repeat("H(", r.c.Layers) + stubTag() + suffix + strings.Repeat(")", r.c.Layers)
 			case "own":
 				return "OWN:" + o.E + ":" + path + suffix
 			default:
@@ -483,8 +508,11 @@ func (r *runner) compare(o op, u0, h0 int, gotRet, wantRet string) {
 	gotH, gotU := append([]string{}, w.hooks[h0:]...), append([]string{}, w.under[u0:]...)
 	wantH, wantU := pairs(o.Hook), pairs(o.Under)
 	if !reflect.DeepEqual(gotH, wantH) {
-		r.fail(o, fmt.Sprintf("hookcalls(%d,want %d)", len(gotH), len(wantH)),
-			fmt.Sprintf("%s %s on handle %s: Hook invocations %v, Hook.tla predicts %v", o.Op, o.E, pathOf(o.H), gotH, wantH))
+		d := fmt.Sprintf("hookcalls(%d,want %d)", len(gotH), len(wantH))
+		if len(gotH) == len(wantH) {
+			d = "hookcalls(wrong-hook-or-client)"
+		}
+		r.fail(o, d, fmt.Sprintf("%s %s on handle %s: Hook invocations %v, Hook.tla predicts %v", o.Op, o.E, pathOf(o.H), gotH, wantH))
 	}
 	if !reflect.DeepEqual(gotU, wantU) {
 		r.fail(o, fmt.Sprintf("undercalls(%d,want %d)", len(gotU), len(wantU)),
@@ -553,6 +581,230 @@ func (r *runner) run(i int, inScope bool) (next int, stopped bool) {
 	return i, false
 }
 
+// ---------------------------------------------------------------------------------------------- real single client
+// Round 2: programs made of Nodes() and Do/DoMulti calls on the root and on node handles (one node address, live
+// contexts) are ALSO replayed with a real rueidis single client over fakeredis as the underlying client, because a real
+// client decides itself which map Nodes() hands out.  Observed per operation and compared with the same prediction:
+// the Hook invocations (layer, entry, what the hook was handed: the real client itself for hook 1, a wrapper for the
+// hooks above it), the number of commands that reached the server, the marks on the result.
+type rworld struct {
+	raw   rueidis.Client
+	hooks []string
+	fwd   bool
+	cmds  int
+}
+type rhook struct {
+	w     *rworld
+	layer int
+}
+
+func (h *rhook) log(entry string, c rueidis.Client) {
+	cls := "other:" + fmt.Sprintf("%T", c)
+	if c == h.w.raw {
+		cls = "real"
+	} else if strings.Contains(fmt.Sprintf("%T", c), "hookclient") {
+		cls = "wrapper"
+	}
+	h.w.hooks = append(h.w.hooks, fmt.Sprintf("L%d:%s@%s", h.layer, entry, cls))
+}
+func (h *rhook) Do(c rueidis.Client, ctx context.Context, cmd rueidis.Completed) rueidis.RedisResult {
+	h.log("Do", c)
+	if h.w.fwd {
+		return mark(c.Do(ctx, cmd))
+	}
+	return res("OWN:Do")
+}
+func (h *rhook) DoMulti(c rueidis.Client, ctx context.Context, multi ...rueidis.Completed) []rueidis.RedisResult {
+	h.log("DoMulti", c)
+	if h.w.fwd {
+		return marks(c.DoMulti(ctx, multi...))
+	}
+	return owns("DoMulti", "", len(multi))
+}
+func (h *rhook) DoCache(c rueidis.Client, ctx context.Context, cmd rueidis.Cacheable, ttl time.Duration) rueidis.RedisResult {
+	h.log("DoCache", c)
+	return c.DoCache(ctx, cmd, ttl)
+}
+func (h *rhook) DoMultiCache(c rueidis.Client, ctx context.Context, multi ...rueidis.CacheableTTL) []rueidis.RedisResult {
+	h.log("DoMultiCache", c)
+	return c.DoMultiCache(ctx, multi...)
+}
+func (h *rhook) Receive(c rueidis.Client, ctx context.Context, sub rueidis.Completed, fn func(rueidis.PubSubMessage)) error {
+	h.log("Receive", c)
+	return c.Receive(ctx, sub, fn)
+}
+func (h *rhook) DoStream(c rueidis.Client, ctx context.Context, cmd rueidis.Completed) rueidis.RedisResultStream {
+	h.log("DoStream", c)
+	return c.DoStream(ctx, cmd)
+}
+func (h *rhook) DoMultiStream(c rueidis.Client, ctx context.Context, multi ...rueidis.Completed) rueidis.MultiRedisResultStream {
+	h.log("DoMultiStream", c)
+	return c.DoMultiStream(ctx, multi...)
+}
+
+func eligibleReal(c tcase) bool {
+	nodes := false
+	for _, o := range c.Ops {
+		for _, el := range o.H {
+			if el[0] != "n" {
+				return false
+			}
+		}
+		switch {
+		case o.Op == "Nodes":
+			nodes = true
+			if len(o.Made) != 1 {
+				return false
+			}
+		case o.Op == "Call" && (o.E == "Do" || o.E == "DoMulti") && (o.Cx == "" || o.Cx == "live"):
+		default:
+			return false
+		}
+	}
+	return nodes
+}
+
+type realEnv struct {
+	srv     *fakeredis.Server
+	network *fakeredis.Network
+	cur     *rworld
+}
+
+func newRealEnv() *realEnv {
+	e := &realEnv{srv: fakeredis.NewServer("hook", fakeredis.Options{}), network: fakeredis.NewNetwork()}
+	e.network.Add("127.0.0.1:6379", e.srv)
+	e.srv.SetIntercept(func(c *fakeredis.Conn, argv []string) (fakeredis.Value, fakeredis.Action) {
+		if len(argv) > 0 && strings.EqualFold(argv[0], "GET") && e.cur != nil {
+			e.cur.cmds++ // under the server's dispatcher lock; read by the driver only after the call returned
+		}
+		return fakeredis.Value{}, fakeredis.Pass
+	})
+	return e
+}
+
+func (e *realEnv) run(c tcase, rep *vh.Report) {
+	raw, err := rueidis.NewClient(rueidis.ClientOption{InitAddress: []string{"127.0.0.1:6379"}, DialCtxFn: e.network.DialCtxFn(),
+		ForceSingleClient: true, DisableCache: true, DisableRetry: true, Dialer: net.Dialer{Timeout: time.Minute}, ConnWriteTimeout: time.Minute})
+	if err != nil {
+		rep.Inconcl("real single client: %v", err)
+		return
+	}
+	defer raw.Close()
+	ctx, cancel := context.WithTimeout(context.Background(), time.Minute)
+	defer cancel()
+	if err := raw.Do(ctx, raw.B().Set().Key("k").Value("v").Build()).Error(); err != nil {
+		rep.Inconcl("real single client: SET: %v", err)
+		return
+	}
+	w := &rworld{raw: raw, fwd: c.Fwd}
+	e.cur = w
+	defer func() { e.cur = nil }()
+	var wrapped rueidis.Client = raw
+	for k := 1; k <= c.Layers; k++ {
+		wrapped = rueidishook.WithHook(wrapped, &rhook{w: w, layer: k})
+	}
+	handles := map[string]rueidis.Client{"": wrapped}
+	fail := func(o op, diff, what string) {
+		sig := fmt.Sprintf("hook real-single-client kind=%s op=%s entry=%s fwd=%v diff=%s", kindPath(o.H), o.Op, o.E, c.Fwd, diff)
+		if c.Layers > 1 {
+			sig += fmt.Sprintf(" stacked-hooks=%d", c.Layers)
+		}
+		rep.Violate(sig, what, c)
+	}
+	for i, o := range c.Ops {
+		path := pathOf(o.H)
+		hd := handles[path]
+		if hd == nil {
+			rep.Inconcl("real single client: no handle for %s", path)
+			return
+		}
+		h0, c0 := len(w.hooks), w.cmds
+		gotRet, wantRet, ncmd := "", "", 0
+		get := func(x rueidis.RedisResult) string {
+			s, err := x.ToString()
+			if err != nil {
+				return "ERR:" + err.Error()
+			}
+			return s
+		}
+		want := func() string {
+			if o.Ret == "own" {
+				return "OWN:"
+			}
+			return strings.Repeat("H(", c.Layers) + "v" + strings.Repeat(")", c.Layers)
+		}
+		switch o.Op {
+		case "Nodes":
+			m := hd.Nodes()
+			if len(m) != 1 {
+				fail(o, "nodes", fmt.Sprintf("Nodes() of %s over a real single client returned %d entries", path, len(m)))
+				return
+			}
+			for _, v := range m {
+				handles[pathOf(o.Made[0])] = v
+			}
+		case "Call":
+			if o.E == "Do" {
+				ncmd = 1
+				gotRet, wantRet = get(hd.Do(ctx, raw.B().Get().Key("k").Build())), want()
+				if o.Ret == "own" {
+					gotRet = strings.TrimSuffix(gotRet, "Do")
+				}
+			} else {
+				ncmd = 2
+				for _, x := range hd.DoMulti(ctx, raw.B().Get().Key("k").Build(), raw.B().Get().Key("k").Build()) {
+					g := get(x)
+					if o.Ret == "own" && strings.HasPrefix(g, "OWN:DoMulti:[") {
+						g = "OWN:"
+					}
+					gotRet += g + ";"
+					wantRet += want() + ";"
+				}
+			}
+		}
+		gotH := append([]string{}, w.hooks[h0:]...)
+		wantH := []string{}
+		for _, p := range o.Hook {
+			name := fmt.Sprint(p[0])
+			cls := "wrapper"
+			if strings.HasPrefix(name, "L1:") {
+				cls = "real"
+			}
+			wantH = append(wantH, name+"@"+cls)
+		}
+		if !reflect.DeepEqual(gotH, wantH) {
+			fail(o, fmt.Sprintf("hookcalls(%d,want %d)", len(gotH), len(wantH)),
+				fmt.Sprintf("operation %d: %s %s on handle %s over a real single client: Hook invocations %v, Hook.tla predicts %v", i+1, o.Op, o.E, path, gotH, wantH))
+			return
+		}
+		if got, wantN := w.cmds-c0, len(o.Under)*ncmd; o.Op == "Call" && got != wantN {
+			fail(o, fmt.Sprintf("undercalls(%d,want %d)", got, wantN),
+				fmt.Sprintf("operation %d: %s %s on handle %s over a real single client: %d commands reached the server, Hook.tla predicts %d", i+1, o.Op, o.E, path, got, wantN))
+			return
+		}
+		if gotRet != wantRet {
+			fail(o, "result", fmt.Sprintf("operation %d: %s %s on handle %s over a real single client returned %q, Hook.tla predicts %q", i+1, o.Op, o.E, path, gotRet, wantRet))
+			return
+		}
+	}
+}
+
+// nodeIDsOf: the node addresses the specification used (taken from the handles made by the first Nodes operation)
+func nodeIDsOf(c tcase) []string {
+	for _, o := range c.Ops {
+		if o.Op != "Nodes" {
+			continue
+		}
+		var ids []string
+		for _, md := range o.Made {
+			last := md[len(md)-1]
+			ids = append(ids, fmt.Sprintf("%v%v", last[0], jsonInt(last[1])))
+		}
+		return ids
+	}
+	return nil
+}
+
 func main() {
 	flag.Parse()
 	rep := &vh.Report{Rule: "distinct (handle derivation kind, entry point, hook behaviour) combinations exercised through a handle other than the wrapped root client"}
@@ -566,6 +818,8 @@ func main() {
 	sc := bufio.NewScanner(f)
 	sc.Buffer(make([]byte, 1<<20), 1<<26)
 	combos := map[string]bool{}
+	var env *realEnv
+	realRuns := 0
 	for sc.Scan() {
 		var c tcase
 		if err := json.Unmarshal(sc.Bytes(), &c); err != nil {
@@ -573,8 +827,17 @@ func main() {
 			continue
 		}
 		w := &world{fwd: c.Fwd, nodeIDs: []string{"n1", "n2"}, deds: map[string]*stubDed{}}
+		if ids := nodeIDsOf(c); len(ids) > 0 { // the address set of the specification's configuration
+			w.nodeIDs = ids
+		}
 		root := &stub{w: w, path: ""}
-		wrapped := rueidishook.WithHook(root, &hook{w: w})
+		if c.Layers < 1 {
+			c.Layers = 1
+		}
+		var wrapped rueidis.Client = root
+		for k := 1; k <= c.Layers; k++ { // hook k is the k-th WithHook around the client: the last one is outermost
+			wrapped = rueidishook.WithHook(wrapped, &hook{w: w, layer: k})
+		}
 		r := &runner{w: w, c: c, handles: map[string]any{"": wrapped}, cancels: map[string]func(){}, rep: rep, combos: combos}
 		r.run(0, false)
 		rep.Evaluations++
@@ -582,7 +845,18 @@ func main() {
 		if !r.bad {
 			rep.Sample(c)
 		}
+		if eligibleReal(c) && realRuns < 600 {
+			if env == nil {
+				env = newRealEnv()
+			}
+			realRuns++
+			env.run(c, rep)
+		}
 	}
+	if env != nil {
+		env.srv.Close()
+	}
+	rep.Extra = map[string]any{"programs_replayed_over_real_single_client": realRuns}
 	for k := range combos {
 		if !strings.HasPrefix(k, "root|") {
 			rep.DistinctNontrivial++
